@@ -755,6 +755,16 @@ impl AutosarModel {
             filemap.insert(filename, new_file.downgrade());
         }
 
+        // the root element itself is not copied; its comment and its attributes must be transferred separately
+        {
+            let orig_root = self.root_element();
+            let copy_root = copy.root_element();
+            let orig_root_locked = orig_root.0.read();
+            let mut copy_root_locked = copy_root.0.write();
+            copy_root_locked.comment.clone_from(&orig_root_locked.comment);
+            copy_root_locked.attributes.clone_from(&orig_root_locked.attributes);
+        }
+
         // by inserting copies of the sub elements of <AUTOSAR>, we automatically
         // get up-to-date identifiables and reference_origins
         for element in self.root_element().sub_elements() {
